@@ -113,35 +113,6 @@ parse_ipv4_decimal_scalar(const char* p, const char* pend) noexcept {
 }
 
 #if defined(ADA_AVX512)
-// After SIMD validation: fewer rejection branches on convert.
-ada_really_inline uint64_t
-parse_ipv4_decimal_trusted(const char* p, const char* pend) noexcept {
-  uint32_t ipv4 = 0;
-  for (int i = 0; i < 4; ++i) {
-    uint32_t val = static_cast<uint32_t>(*p - '0');
-    ++p;
-    if (p < pend && static_cast<unsigned char>(*p - '0') <= 9) {
-      if (val == 0) [[unlikely]] {
-        return ipv4_fast_fail;
-      }
-      val = val * 10u + static_cast<uint32_t>(*p - '0');
-      ++p;
-      if (p < pend && static_cast<unsigned char>(*p - '0') <= 9) {
-        val = val * 10u + static_cast<uint32_t>(*p - '0');
-        ++p;
-        if (val > 255u) [[unlikely]] {
-          return ipv4_fast_fail;
-        }
-      }
-    }
-    ipv4 = (ipv4 << 8) | val;
-    if (i < 3) {
-      ++p;  // trusted '.'
-    }
-  }
-  return ipv4;  // trailing-dot already accounted for by caller via pend
-}
-
 // AVX-512 pure-decimal IPv4 (Lemire/Mula-style masked load + parallel checks).
 // No over-read of the source string. Wins when the binary is built with
 // -mavx512bw -mavx512vl (or -march that enables them).
@@ -160,18 +131,14 @@ ada_really_inline uint64_t try_parse_ipv4_avx512(const char* data,
   }
   const unsigned dot_count =
       static_cast<unsigned>(_mm_popcnt_u32(static_cast<unsigned>(is_dot)));
-  size_t effective_len = len;
-  if (dot_count == 3) {
-    // ok
-  } else if (dot_count == 4 && data[len - 1] == '.') {
-    effective_len = len - 1;  // strip trailing dot for convert
-  } else {
+  if (!(dot_count == 3 || (dot_count == 4 && data[len - 1] == '.'))) {
     return ipv4_fast_fail;
   }
-  // Convert from a tiny stack copy so trusted peeks stay in-bounds.
-  alignas(16) char buf[16]{};
-  std::memcpy(buf, data, effective_len);
-  return parse_ipv4_decimal_trusted(buf, buf + effective_len);
+  // The masks only establish "digits and dots, plausible dot count". Where the
+  // dots are (empty labels such as "10..2.3", labels of more than three
+  // digits, a label count below four before a trailing dot) is still checked
+  // by the scalar converter, exactly as in the non-AVX-512 build.
+  return parse_ipv4_decimal_scalar(data, data + len);
 }
 #endif  // ADA_AVX512
 
